@@ -262,20 +262,57 @@ def eos(ctx, rule):
           and not (isinstance(n.ast.value, ast.Constant) and n.ast.value.value is None)
           and not isinstance(n.ast.value, ast.Call)]
   ctx.expect_at_least('statement returns of parse_statement', len(rets), 1)
+  END = {'tokenize.NEWLINE', 'tokenize.DEDENT', 'tokenize.ENDMARKER'}
+  TT = 'self._current_token.type'
+  covered = set()
+
+  def members(e, fs):
+    if isinstance(e, (ast.Tuple, ast.List, ast.Set)):
+      return {u(x) for x in e.elts}
+    if isinstance(e, ast.Name):
+      d = def_of(fs, e.id)
+      if d:
+        try:
+          return members(ast.parse(d, mode='eval').body, fs)
+        except SyntaxError:
+          return None
+    return None
   for n in rets:
     fs = facts[n.id]
-    guard = [fct for fct in fs if fct[0] == 'c' and fct[2] is True and fct[1].startswith('self._current_token.type in ')]
-    ok = False
-    if guard:
-      var = guard[0][1].split(' in ')[1]
-      d = def_of(fs, var) or var
-      names = set(d.replace('(', '').replace(')', '').replace('[', '').replace(']', '').replace(' ', '').split(','))
-      ok = names == {'tokenize.NEWLINE', 'tokenize.DEDENT', 'tokenize.ENDMARKER'}
-      end_def = d
+    # value set of the token type at the check, from the facts that reach the return
+    allowed, seen_pos = None, False
+    for fct in fs:
+      if fct[0] != 'c':
+        continue
+      try:
+        t = ast.parse(fct[1], mode='eval').body
+      except SyntaxError:
+        continue
+      if not (isinstance(t, ast.Compare) and len(t.ops) == 1):
+        continue
+      left_is_tt = u(t.left) == TT or (isinstance(t.left, ast.Name) and def_of(fs, t.left.id) == TT)
+      if not left_is_tt:
+        continue
+      if isinstance(t.ops[0], ast.Eq) and fct[2] is True:
+        vals = {u(t.comparators[0])}
+      elif isinstance(t.ops[0], ast.In) and fct[2] is True:
+        vals = members(t.comparators[0], fs)
+      else:
+        continue
+      if vals is None:
+        continue
+      seen_pos = True
+      allowed = vals if allowed is None else (allowed & vals)
+    ok = seen_pos and allowed is not None and allowed <= END and bool(allowed)
+    end_def = sorted(allowed) if allowed is not None else None
+    covered |= (allowed or set())
     ctx.check(ok, rule, construct(ps),
               'a statement is returned only after the current token was checked to be NEWLINE / DEDENT / ENDMARKER (else syntax error)',
               'a parsed statement is returned without the end-of-statement check (end set: %s): trailing junk after a value is '
               'silently accepted' % end_def, ps.loc(n.ast), instance='return@%s' % u(n.ast.value))
+  ctx.check(END <= covered, rule, construct(ps), 'a statement may end at a NEWLINE, a DEDENT or the end of the text',
+            'a statement can no longer end at %s: a layout that ends a statement there (e.g. a text without a final line break) is rejected'
+            % sorted(END - covered), ps.loc(), instance='end-set')
   bb = ctx.func(CP + '._parse_binding_block')
   g, facts = std_facts(prog, bb)
   apps = [n for n in g.live_nodes() if any(isinstance(c.func, ast.Attribute) and c.func.attr == 'append' for c in calls_of_node(n)) and n.loops]
